@@ -37,7 +37,7 @@ struct Content {
     bool locks = false; bool analogGroupEmpty = false; int valueSet = 0; int gapWord = 10;
     // hooks used by the C12 pattern files
     std::function<uint32_t(int, int, int)> ptFn, anFn; std::vector<GParam> customParams; std::vector<uint32_t> eventTimes; bool haveRateBits = false; uint32_t rateBits = 0;
-    int lastOverride = -1; bool blankLabel = false; bool reservedNonZero = false; bool longNames = false; int keyLabel = 0, firstKeyBlock = 0;
+    int lastOverride = -1; bool blankLabel = false; bool reservedNonZero = false; bool longNames = false; int keyLabel = 0, firstKeyBlock = 0; bool noDataStart = false;
 };
 struct Layout {
     int zeros = 0; bool zeroPrologue = false; int paramBlock = 2; std::string order = "default"; std::string ids = "dense"; bool lastOffsetZero = false; bool lowerNames = false;
@@ -60,7 +60,7 @@ inline std::vector<GGroup> buildGroups(const Content& c, const Layout& l) {
     P.params.push_back(GParam::ints("USED", {}, {c.nPoints}, true, D("points used")));
     P.params.push_back(GParam::floats("SCALE", {}, {0xBF800000u}, true));
     P.params.push_back(GParam::floats("RATE", {}, {c.haveRateBits ? c.rateBits : f2b(c.pointRate)}, true));
-    P.params.push_back(GParam::ints("DATA_START", {}, {0}, true));      // patched by encode()
+    if (!c.noDataStart) P.params.push_back(GParam::ints("DATA_START", {}, {0}, true));      // patched by encode(); some vendor files do not carry it
     P.params.push_back(GParam::ints("FRAMES", {}, {c.nFrames}, true));
     {   int n = std::min(255, std::max(0, c.nPoints + c.labelsDelta)); std::vector<std::string> v; for (int i = 0; i < n; ++i) v.push_back(ptLabel(i)); if (c.blankLabel && n > 0) v[(size_t)n - 1] = "    "; P.params.push_back(GParam::strs("LABELS", 4, {n}, v, D("labels")));
         int nd = std::min(c.nPoints, 255); std::vector<std::string> d; for (int i = 0; i < nd; ++i) d.push_back(i % 2 ? "" : "desc" + std::to_string(i)); P.params.push_back(GParam::strs("DESCRIPTIONS", 8, {nd}, d)); }
@@ -182,6 +182,7 @@ inline std::vector<Dim> dims(bool thorough) {
     d.push_back({"lastoff", {"ptr", "zero"}});
     d.push_back({"agroup", {"full", "empty"}});
     d.push_back({"reserved", {"zero", "nonzero"}});
+    d.push_back({"datastart", {"present", "absent"}});
     return d;
 }
 using Choice = std::map<std::string, std::string>;
@@ -196,6 +197,7 @@ inline bool apply(const Choice& ch, Content& c, Layout& l) {   // returns false 
     l.zeros = atoi(get("zeros", "0").c_str()); l.zeroPrologue = get("prologue", "0150") == "0000"; l.paramBlock = atoi(get("pblock", "2").c_str()); l.order = get("order", "default"); l.ids = get("ids", "dense");
     l.lastOffsetZero = get("lastoff", "ptr") == "zero";
     c.reservedNonZero = get("reserved", "zero") == "nonzero";
+    c.noDataStart = get("datastart", "present") == "absent";
     c.longNames = get("names", "std") == "long"; if (c.longNames && c.extra == "none") return false;
     if (get("hdrwords", "std") == "odd") { c.gapWord = 65535; c.keyLabel = 12345; c.firstKeyBlock = 7; c.scaleBits = 0xBE800000u; }
     c.analogGroupEmpty = get("agroup", "full") == "empty"; if (c.analogGroupEmpty) { if (ch.count("chans") && ch.at("chans") != "0") return false; c.nChans = 0; if (ch.count("alabels")) return false; }
